@@ -317,6 +317,7 @@ func visitInstr(fr *frame, instr ssa.Instruction) continuation {
 		if addr == nil {
 			fr.runtimePanic("runtime error: invalid memory address or nil pointer dereference")
 		}
+		fr.raceWrite(addr)
 		store(mustDeref(instr.Addr.Type()), addr, fr.get(instr.Val))
 
 	case *ssa.If:
@@ -349,8 +350,11 @@ func visitInstr(fr *frame, instr ssa.Instruction) continuation {
 		fn, args := prepareCall(fr, &instr.Call)
 		fr.i.ctx.w.intr["<go inline>"]++
 		func() {
-			fr.i.ctx.goDepth++
-			defer func() { fr.i.ctx.goDepth-- }()
+			c := fr.i.ctx
+			c.goDepth++
+			c.nextGid++
+			c.gidStack = append(c.gidStack, c.nextGid)
+			defer func() { c.goDepth--; c.gidStack = c.gidStack[:len(c.gidStack)-1] }()
 			call(fr.i, nil, instr.Pos(), fn, args)
 		}()
 
@@ -446,6 +450,7 @@ func visitInstr(fr *frame, instr ssa.Instruction) continuation {
 			fr.runtimePanic("assignment to entry in nil map")
 		}
 		key := fr.mapKey(fr.get(instr.Key))
+		fr.raceWrite(m)
 		m.insert(key, fr.get(instr.Value))
 
 	case *ssa.TypeAssert:
@@ -762,4 +767,44 @@ func (c *chanObj) recv(fr *frame, elem types.Type) (value, bool) {
 		return zero(elem), false
 	}
 	panic(engineAbort{"UNSUPPORTED", "receive on empty open channel under the inline goroutine schedule (would block) in " + fr.fn.String()})
+}
+
+// raceWrite is a lockset (Eraser-style) check for write-write races among the goroutines a piece of
+// code spawns, under the inline schedule: every `go` body gets an id; a memory cell written by two
+// different goroutine bodies with no common mutex held is a data race of the real program, whatever
+// order the scheduler picks (sibling goroutines are not ordered by anything the check ignores except
+// channel hand-overs, which the code under test does not use for ownership transfer).  Writes by the
+// spawning code itself are not tracked (they are ordered by go / WaitGroup.Wait).  Reported as the
+// panic-class violation RACE and confirmed by replaying the path natively under the race detector.
+func (fr *frame) raceWrite(addr interface{}) {
+	c := fr.i.ctx
+	if len(c.gidStack) == 0 || addr == nil {
+		return
+	}
+	gid := c.gidStack[len(c.gidStack)-1]
+	var locks []*value
+	for l, n := range c.held {
+		if n > 0 {
+			locks = append(locks, l)
+		}
+	}
+	if c.wrote == nil {
+		c.wrote = map[interface{}]raceRec{}
+	}
+	if prev, ok := c.wrote[addr]; ok && prev.gid != gid {
+		common := false
+		for _, a := range prev.locks {
+			for _, b := range locks {
+				if a == b {
+					common = true
+				}
+			}
+		}
+		if !common {
+			c.lastPanicSite = "RACE:" + fr.fn.String()
+			c.lastPanicStack = fr.stack()
+			panic(targetPanic{"data race: a variable shared by goroutines of one batch is written by two of them with no common lock held (first write in " + prev.site + ", second in " + fr.fn.String() + ")"})
+		}
+	}
+	c.wrote[addr] = raceRec{gid: gid, locks: locks, site: fr.fn.String()}
 }
